@@ -409,6 +409,13 @@ theorem layerSynced_load {ln : String} {dl : DLayer} {l : MLayer} (h : LayerSync
     · exact h.glyphs x g st h1 hst
   sched := h.sched
   gs := h.gs
+  loaded := by
+    intro x g hm
+    rw [mem_setAdd]
+    rcases AL.mem_set hm with h1 | h1
+    · injection h1 with h1 _; exact Or.inr h1
+    · exact Or.inl (h.loaded x g h1)
+  nodupGlyphs := AL.nodup_keys_set _ _ _ h.nodupGlyphs
 
 /-- changing the value / dirty flag of a loaded glyph, the stamp kept -/
 theorem layerSynced_setValue {ln : String} {dl : DLayer} {l : MLayer} (h : LayerSynced ln dl l) {gn : String} {g : MGlyph}
@@ -426,6 +433,12 @@ theorem layerSynced_setValue {ln : String} {dl : DLayer} {l : MLayer} (h : Layer
     · exact h.glyphs x g' st h1 hst
   sched := h.sched
   gs := h.gs
+  loaded := by
+    intro x g' hm
+    rcases AL.mem_set hm with h1 | h1
+    · injection h1 with h1 _; subst h1; exact h.loaded _ g hg
+    · exact h.loaded x g' h1
+  nodupGlyphs := AL.nodup_keys_set _ _ _ h.nodupGlyphs
 
 
 theorem Synced.layerOf' {s : State} (h : Synced s) {ln : String} {l : MLayer} (hl : getLayer s ln = some l) :
@@ -553,8 +566,26 @@ theorem synced_setLayerInfo {s s' : State} (h : Synced s) {ln : String} {v : Blo
     subst hr
     refine synced_setLayer h ln _ fun dl hdl => ?_
     have hs := h.layerOf' hl dl hdl
-    exact ⟨hs.info, hs.names, hs.disjoint, hs.glyphs, hs.sched, hs.gs⟩
+    exact ⟨hs.info, hs.names, hs.disjoint, hs.glyphs, hs.sched, hs.gs, hs.loaded, hs.nodupGlyphs⟩
 
+
+theorem mem_erase_ne {κ α : Type} [DecidableEq κ] {l : List (κ × α)} {k x : κ} {v : α} (hn : (AL.keys l).Nodup)
+    (h : (x, v) ∈ AL.erase l k) : x ≠ k := by
+  induction l with
+  | nil => simp [AL.erase] at h
+  | cons p r ih =>
+    obtain ⟨k', v'⟩ := p
+    simp only [AL.keys, List.map_cons, List.nodup_cons] at hn
+    by_cases e : k' = k
+    · subst e
+      simp only [AL.erase, if_true] at h
+      intro e2
+      subst e2
+      exact hn.1 (List.mem_map.2 ⟨(x, v), h, rfl⟩)
+    · simp only [AL.erase, e, if_false, List.mem_cons, Prod.mk.injEq] at h
+      rcases h with ⟨h1, _⟩ | h
+      · rw [h1]; exact e
+      · exact ih (by simpa [AL.keys] using hn.2) h
 
 /-- the layer after `del layer[gn]`: the file is scheduled for deletion with a stamp that holds its bytes -/
 theorem layerSynced_del {ln : String} {dl : DLayer} {l : MLayer} (h : LayerSynced ln dl l) {gn : String} {f' st' : File}
@@ -593,6 +624,11 @@ theorem layerSynced_del {ln : String} {dl : DLayer} {l : MLayer} (h : LayerSynce
     · simp [e] at hg
       exact h.sched x st hg
   gs := h.gs
+  loaded := by
+    intro x g hm
+    rw [mem_setDel]
+    exact ⟨h.loaded x g (AL.mem_erase hm), mem_erase_ne h.nodupGlyphs hm⟩
+  nodupGlyphs := AL.nodup_keys_erase _ _ h.nodupGlyphs
 
 theorem synced_afterDelete {s : State} (h : Synced s) (gn : String) : Synced (afterDelete s gn) := by
   unfold afterDelete
@@ -742,6 +778,7 @@ theorem fsSynced_setEntry {files : List (String × File)} {fs : FileSet} (h : FS
   schedDigest := h.schedDigest
   schedUnloaded := h.schedUnloaded
   nodupSched := h.nodupSched
+  nodupEntries := AL.nodup_keys_set _ _ _ h.nodupEntries
 
 theorem view_contains {s : State} (h : Synced s) (img : Bool) (n : String) :
     (AL.get? (fsFiles (view s) img) n).isSome = (AL.get? (fsFiles s.disk img) n).isSome := by
@@ -853,6 +890,7 @@ theorem fsSynced_del {files : List (String × File)} {fs : FileSet} (h : FSSynce
     · simp [e1] at hg
       exact h.schedUnloaded x e' hg hdn
   nodupSched := AL.nodup_keys_set _ _ _ h.nodupSched
+  nodupEntries := AL.nodup_keys_erase _ _ h.nodupEntries
 
 theorem synced_fsDel {s : State} (h : Synced s) (img : Bool) (n : String) : Synced (fsDel s img n).1 := by
   unfold fsDel
@@ -900,6 +938,7 @@ theorem fsSynced_eraseSched {files : List (String × File)} {fs : FileSet} (h : 
     · subst e1; rw [AL.get?_erase_self_of_nodup _ _ h.nodupSched] at hg; cases hg
     · rw [AL.get?_erase_ne _ _ _ e1] at hg; exact h.schedUnloaded x e hg hd
   nodupSched := AL.nodup_keys_erase _ _ h.nodupSched
+  nodupEntries := h.nodupEntries
 
 theorem fsSynced_unsched {files : List (String × File)} {fs : FileSet} (h : FSSynced files fs) (n : String)
     (hboth : ¬ (AL.contains fs.sched n = true ∧ AL.contains fs.entries n = true)) :
@@ -1069,6 +1108,8 @@ theorem layerSynced_touch {ln : String} {dl : DLayer} {l : MLayer} (h : LayerSyn
     intro x
     simp only [keys_set_of_get? _ hf]
     exact h4 x
+  loaded := h.loaded
+  nodupGlyphs := h.nodupGlyphs
 
 theorem synced_touch_glyph {s : State} (h : Synced s) {ln gn : String} {dl : DLayer} {f : File} (t : Time)
     (hdl : AL.get? s.disk.layers ln = some dl) (hf : AL.get? dl.glifs gn = some f) :
@@ -1131,6 +1172,7 @@ theorem fsSynced_touch {files : List (String × File)} {fs : FileSet} (h : FSSyn
     | some f0 => simp [h2] at e1; rw [e1]; exact h.schedDigest x e f0 hg h2
   schedUnloaded := h.schedUnloaded
   nodupSched := h.nodupSched
+  nodupEntries := h.nodupEntries
 
 theorem synced_touch_file {s : State} (h : Synced s) (img : Bool) {n : String} {f : File} (t : Time)
     (hf : AL.get? (fsFiles s.disk img) n = some f) :
@@ -1193,7 +1235,7 @@ theorem synced_afterTest {s : State} (h : Synced s) : Synced (afterTest s) where
     · unfold layerAfterTest
       simp only [layerAdded_quiet h2 h3, List.foldl_nil]
       exact ⟨h3.info, h3.names, h3.disjoint, h3.glyphs, h3.sched,
-        ⟨_, rfl, rfl, rfl, fun gn => mem_glifNames s.disk ln gn dl h2⟩⟩
+        ⟨_, rfl, rfl, rfl, fun gn => mem_glifNames s.disk ln gn dl h2⟩, h3.loaded, h3.nodupGlyphs⟩
   images := h.images
   data := h.data
   reader := fun _ => rfl
@@ -1203,7 +1245,12 @@ theorem synced_lastReport {s : State} (h : Synced s) (r : Option Report) : Synce
   ⟨h.parts, h.order, h.default, h.layers, h.images, h.data, h.reader, h.nodupOrder⟩
 
 /-- a font just opened is in step with its UFO -/
-theorem synced_openFont (zip : Bool) (d : Disk) (empty : Blob) (hn : (layerNames d).Nodup) :
+theorem keys_map_entry (files : List (String × File)) :
+    AL.keys (files.map fun p => (p.1, ({} : Entry))) = AL.keys files := by
+  simp [AL.keys, List.map_map, Function.comp_def]
+
+theorem synced_openFont (zip : Bool) (d : Disk) (empty : Blob) (hn : (layerNames d).Nodup)
+    (hi : (AL.keys d.images).Nodup) (hd : (AL.keys d.data).Nodup) :
     Synced (openFont zip d empty) where
   parts := by
     intro p mp hg
@@ -1224,7 +1271,9 @@ theorem synced_openFont (zip : Bool) (d : Disk) (empty : Blob) (hn : (layerNames
         disjoint := by intro gn _; simp [AL.contains, openLayer]
         glyphs := by intro gn g st hm; simp [openLayer] at hm
         sched := by intro gn st hg; simp [openLayer] at hg
-        gs := ⟨_, rfl, rfl, rfl, fun _ => Iff.rfl⟩ }
+        gs := ⟨_, rfl, rfl, rfl, fun _ => Iff.rfl⟩
+        loaded := by intro gn g hm; simp [openLayer] at hm
+        nodupGlyphs := by simp [openLayer, AL.keys] }
   images := {
     known := by
       intro n hn'
@@ -1257,7 +1306,10 @@ theorem synced_openFont (zip : Bool) (d : Disk) (empty : Blob) (hn : (layerNames
     schedOnDisk := by intro n e hg; simp [openFont] at hg
     schedDigest := by intro n e f hg; simp [openFont] at hg
     schedUnloaded := by intro n e hg; simp [openFont] at hg
-    nodupSched := by simp [openFont, AL.keys] }
+    nodupSched := by simp [openFont, AL.keys]
+    nodupEntries := by
+      show (AL.keys (d.images.map fun p => (p.1, ({} : Entry)))).Nodup
+      rw [keys_map_entry]; exact hi }
   data := {
     known := by
       intro n hn'
@@ -1290,10 +1342,579 @@ theorem synced_openFont (zip : Bool) (d : Disk) (empty : Blob) (hn : (layerNames
     schedOnDisk := by intro n e hg; simp [openFont] at hg
     schedDigest := by intro n e f hg; simp [openFont] at hg
     schedUnloaded := by intro n e hg; simp [openFont] at hg
-    nodupSched := by simp [openFont, AL.keys] }
+    nodupSched := by simp [openFont, AL.keys]
+    nodupEntries := by
+      show (AL.keys (d.data.map fun p => (p.1, ({} : Entry)))).Nodup
+      rw [keys_map_entry]; exact hd }
   reader := fun _ => rfl
   nodupOrder := hn
 
+
+/-! ### save-as -/
+
+/-- every key of the layer is loaded -/
+def KeysLoaded (s : State) (ln : String) : Prop :=
+  ∃ l, getLayer s ln = some l ∧ ∀ y ∈ l.keys, AL.contains l.glyphs y = true
+
+theorem getLayer_setLayer_self (s : State) (ln : String) (l : MLayer) : getLayer (setLayer s ln l) ln = some l := by
+  unfold getLayer setLayer; exact AL.get?_set_self _ _ _
+
+theorem getLayer_setLayer_ne (s : State) {ln x : String} (l : MLayer) (h : ln ≠ x) :
+    getLayer (setLayer s ln l) x = getLayer s x := by
+  unfold getLayer setLayer; exact AL.get?_set_ne _ _ _ _ h
+
+/-- what a successful `layer[gn]` changes -/
+theorem getGlyph_frame {s s1 : State} {ln gn : String} {g : MGlyph} (hr : getGlyph s ln gn = .ok (s1, g)) :
+    s1.font.order = s.font.order ∧ (∀ x, ln ≠ x → getLayer s1 x = getLayer s x) ∧
+    ∃ l l1, getLayer s ln = some l ∧ getLayer s1 ln = some l1 ∧ AL.contains l1.glyphs gn = true ∧
+      (∀ y, AL.contains l.glyphs y = true → AL.contains l1.glyphs y = true) ∧
+      (∀ y, y ∈ l1.keys → y ∈ l.keys ∨ y = gn) ∧ (∀ y, y ∈ l.keys → y ∈ l1.keys) := by
+  unfold getGlyph at hr
+  cases hl : getLayer s ln with
+  | none => simp [hl] at hr
+  | some l =>
+    simp only [hl] at hr
+    cases hg : AL.get? l.glyphs gn with
+    | some g0 =>
+      simp only [hg] at hr
+      injection hr with hr
+      injection hr with h1 h2
+      subst h1
+      exact ⟨rfl, fun _ _ => rfl, l, l, rfl, hl, by simp [AL.contains, hg], fun _ h => h, fun _ h => Or.inl h,
+        fun _ h => h⟩
+    | none =>
+      simp only [hg] at hr
+      unfold loadGlyph at hr
+      cases hgs : l.gs with
+      | none => simp [hgs] at hr
+      | some b =>
+        simp only [hgs] at hr
+        split at hr
+        · cases hr
+        · cases hrd : gsRead s b gn with
+          | error e => simp [hrd] at hr
+          | ok f =>
+            simp only [hrd] at hr
+            injection hr with hr
+            injection hr with h1 h2
+            subst h1
+            refine ⟨rfl, fun x hx => getLayer_setLayer_ne s _ hx, l, _, rfl, getLayer_setLayer_self s ln _, ?_, ?_, ?_, ?_⟩
+            · simp [AL.contains_set]
+            · intro y hy; simp [AL.contains_set, hy]
+            · intro y hy; exact (mem_setAdd _ _ _).1 hy
+            · intro y hy; exact (mem_setAdd _ _ _).2 (Or.inl hy)
+
+theorem keysLoaded_getGlyph {s s1 : State} {ln gn x : String} {g : MGlyph} (hr : getGlyph s ln gn = .ok (s1, g))
+    (h : KeysLoaded s x) : KeysLoaded s1 x := by
+  obtain ⟨_, hother, l, l1, hl, hl1, hgn, hmono, hkeys, _⟩ := getGlyph_frame hr
+  by_cases e : ln = x
+  · subst e
+    obtain ⟨l0, hl0, hk⟩ := h
+    rw [hl] at hl0
+    injection hl0 with hl0
+    subst hl0
+    refine ⟨l1, hl1, ?_⟩
+    intro y hy
+    rcases hkeys y hy with h1 | h1
+    · exact hmono y (hk y h1)
+    · subst h1; exact hgn
+  · obtain ⟨l0, hl0, hk⟩ := h
+    exact ⟨l0, by rw [hother x e]; exact hl0, hk⟩
+
+/-- `for glyph in self: pass`, on a font in step -/
+theorem loadGlyphs_spec {ln : String} (names : List String) :
+    ∀ {s s1 : State}, Synced s → loadGlyphs ln s names = .ok s1 →
+      Synced s1 ∧ s1.font.order = s.font.order ∧ (∀ x, KeysLoaded s x → KeysLoaded s1 x) ∧
+      (names ≠ [] → ∃ l l1, getLayer s ln = some l ∧ getLayer s1 ln = some l1 ∧
+        (∀ y ∈ names, AL.contains l1.glyphs y = true) ∧
+        (∀ y, AL.contains l.glyphs y = true → AL.contains l1.glyphs y = true) ∧
+        (∀ y, y ∈ l1.keys → y ∈ l.keys ∨ y ∈ names)) := by
+  induction names with
+  | nil =>
+    intro s s1 h hr
+    simp only [loadGlyphs] at hr
+    injection hr with hr
+    subst hr
+    exact ⟨h, rfl, fun _ hx => hx, fun hne => absurd rfl hne⟩
+  | cons gn rest ih =>
+    intro s s1 h hr
+    simp only [loadGlyphs] at hr
+    cases hg : getGlyph s ln gn with
+    | error e => simp [hg] at hr
+    | ok r =>
+      obtain ⟨sa, g⟩ := r
+      simp only [hg] at hr
+      have hsa := (synced_getGlyph h hg).1
+      obtain ⟨hord, hother, l, la, hl, hla, hgn, hmono, hkeys, _⟩ := getGlyph_frame hg
+      obtain ⟨h1, h2, h3, h4⟩ := ih hsa hr
+      refine ⟨h1, h2.trans hord, fun x hx => h3 x (keysLoaded_getGlyph hg hx), fun _ => ?_⟩
+      by_cases hrest : rest = []
+      · subst hrest
+        simp only [loadGlyphs] at hr
+        injection hr with hr
+        subst hr
+        refine ⟨l, la, hl, hla, ?_, hmono, ?_⟩
+        · intro y hy; simp at hy; subst hy; exact hgn
+        · intro y hy
+          rcases hkeys y hy with h5 | h5
+          · exact Or.inl h5
+          · right; simp [h5]
+      · obtain ⟨lb, l1, hlb, hl1, k1, k2, k3⟩ := h4 hrest
+        rw [hla] at hlb
+        injection hlb with hlb
+        subst hlb
+        refine ⟨l, l1, hl, hl1, ?_, fun y hy => k2 y (hmono y hy), ?_⟩
+        · intro y hy
+          simp only [List.mem_cons] at hy
+          rcases hy with h5 | h5
+          · subst h5; exact k2 _ hgn
+          · exact k1 y h5
+        · intro y hy
+          rcases k3 y hy with h5 | h5
+          · rcases hkeys y h5 with h6 | h6
+            · exact Or.inl h6
+            · right; simp [h6]
+          · right; simp [h5]
+
+theorem mem_visibleKeys (l : MLayer) (y : String) :
+    y ∈ visibleKeys l ↔ y ∈ l.keys ∧ AL.contains l.sched y = false := by
+  simp [visibleKeys]
+
+theorem loadLayers_spec (names : List String) :
+    ∀ {s s2 : State}, Synced s → (∀ ln ∈ names, ln ∈ s.font.order) → loadLayers s names = .ok s2 →
+      Synced s2 ∧ s2.font.order = s.font.order ∧ (∀ x, KeysLoaded s x → KeysLoaded s2 x) ∧
+      ∀ ln ∈ names, KeysLoaded s2 ln := by
+  induction names with
+  | nil =>
+    intro s s2 h _ hr
+    simp only [loadLayers] at hr
+    injection hr with hr
+    subst hr
+    exact ⟨h, rfl, fun _ hx => hx, by simp⟩
+  | cons ln rest ih =>
+    intro s s2 h hin hr
+    simp only [loadLayers] at hr
+    cases hl : getLayer s ln with
+    | none => simp [hl] at hr
+    | some l =>
+      simp only [hl] at hr
+      cases hg : loadGlyphs ln s (visibleKeys l) with
+      | error e => simp [hg] at hr
+      | ok sa =>
+        simp only [hg] at hr
+        obtain ⟨hsa, hord, hkl, hspec⟩ := loadGlyphs_spec (visibleKeys l) h hg
+        have hin' : ∀ x ∈ rest, x ∈ sa.font.order := by
+          intro x hx; rw [hord]; exact hin x (by simp [hx])
+        obtain ⟨h1, h2, h3, h4⟩ := ih hsa hin' hr
+        refine ⟨h1, h2.trans hord, fun x hx => h3 x (hkl x hx), ?_⟩
+        intro x hx
+        simp only [List.mem_cons] at hx
+        rcases hx with hx | hx
+        · subst hx
+          apply h3
+          -- the layer just processed: every key is visible (keys and schedule are disjoint), hence loaded
+          have hlnord : x ∈ s.font.order := hin x (by simp)
+          obtain ⟨dl, hdl, hs⟩ := h.layerOf hlnord hl
+          by_cases hv : visibleKeys l = []
+          · -- no visible key: then no key at all
+            simp only [loadGlyphs, hv] at hg
+            injection hg with hg
+            subst hg
+            refine ⟨l, hl, ?_⟩
+            intro y hy
+            have : y ∈ visibleKeys l := (mem_visibleKeys l y).2 ⟨hy, hs.disjoint y hy⟩
+            rw [hv] at this
+            simp at this
+          · obtain ⟨l0, la, hl0, hla, k1, k2, k3⟩ := hspec hv
+            rw [hl] at hl0
+            injection hl0 with hl0
+            subst hl0
+            refine ⟨la, hla, ?_⟩
+            intro y hy
+            rcases k3 y hy with h5 | h5
+            · exact k1 y ((mem_visibleKeys l y).2 ⟨h5, hs.disjoint y h5⟩)
+            · exact k1 y h5
+        · exact h4 x hx
+
+theorem stampW_data (zip : Bool) (tS : Time) (d : Disk) (p : Part) : (stampW zip tS d p).data = diskData d p := by
+  unfold stampW diskData
+  cases AL.get? d.parts p <;> rfl
+
+theorem keys_filterMap_layerEntry (s : State) (tD : Time) (L : List String)
+    (h : ∀ ln ∈ L, (getLayer s ln).isSome = true) : AL.keys (L.filterMap (saveAsLayerEntry s tD)) = L := by
+  induction L with
+  | nil => rfl
+  | cons x r ih =>
+    have hx := h x (by simp)
+    cases hl : getLayer s x with
+    | none => simp [hl] at hx
+    | some l =>
+      have : saveAsLayerEntry s tD x = some (x, saveAsDLayer tD l) := by simp [saveAsLayerEntry, hl]
+      simp only [List.filterMap_cons, this, AL.keys, List.map_cons]
+      have ih' := ih fun ln hln => h ln (by simp [hln])
+      simp only [AL.keys] at ih'
+      rw [ih']
+
+theorem get?_filterMap_layerEntry (s : State) (tD : Time) (L : List String) {ln : String} {l : MLayer}
+    (hin : ln ∈ L) (hl : getLayer s ln = some l) :
+    AL.get? (L.filterMap (saveAsLayerEntry s tD)) ln = some (saveAsDLayer tD l) := by
+  induction L with
+  | nil => simp at hin
+  | cons x r ih =>
+    by_cases e : x = ln
+    · subst e
+      have : saveAsLayerEntry s tD x = some (x, saveAsDLayer tD l) := by simp [saveAsLayerEntry, hl]
+      simp [List.filterMap_cons, this]
+    · have hin' : ln ∈ r := by
+        simp only [List.mem_cons] at hin
+        rcases hin with h | h
+        · exact absurd h.symm e
+        · exact h
+      cases hx : saveAsLayerEntry s tD x with
+      | none => simp [List.filterMap_cons, hx, ih hin']
+      | some q =>
+        have hq : q.1 = x := by
+          unfold saveAsLayerEntry at hx
+          cases hl' : getLayer s x with
+          | none => simp [hl'] at hx
+          | some l' => simp [hl'] at hx; rw [← hx]
+        obtain ⟨k, v⟩ := q
+        simp only at hq
+        subst hq
+        simp [List.filterMap_cons, hx, e, ih hin']
+
+theorem keys_map_saveAsGlif (tD : Time) (gl : List (String × MGlyph)) : AL.keys (gl.map (saveAsGlif tD)) = AL.keys gl := by
+  simp [AL.keys, List.map_map, Function.comp_def, saveAsGlif]
+
+theorem keys_map_saveAsGlyph (tM : Time) (gl : List (String × MGlyph)) : AL.keys (gl.map (saveAsGlyph tM)) = AL.keys gl := by
+  simp [AL.keys, List.map_map, Function.comp_def, saveAsGlyph]
+
+theorem get?_map_saveAsGlif (tD : Time) (gl : List (String × MGlyph)) (gn : String) :
+    AL.get? (gl.map (saveAsGlif tD)) gn = (AL.get? gl gn).map fun g => (⟨g.value, tD⟩ : File) :=
+  AL.get?_map_val (fun g : MGlyph => (⟨g.value, tD⟩ : File)) gl gn
+
+theorem mem_keys_exists {κ α : Type} [DecidableEq κ] {l : List (κ × α)} {k : κ} (h : k ∈ AL.keys l) : ∃ v, (k, v) ∈ l := by
+  simp only [AL.keys, List.mem_map] at h
+  obtain ⟨⟨k', v⟩, hm, rfl⟩ := h
+  exact ⟨v, hm⟩
+
+/-- the layer a save-as leaves, against the directory it wrote -/
+theorem layerSynced_saveAs {ln : String} {dl : DLayer} {l : MLayer} (hs : LayerSynced ln dl l)
+    (hk : ∀ y ∈ l.keys, AL.contains l.glyphs y = true) (tD tM : Time) :
+    LayerSynced ln (saveAsDLayer tD l) (saveAsMLayer tM ln l) where
+  info := rfl
+  names := by
+    intro gn
+    simp only [saveAsDLayer, saveAsMLayer, keys_map_saveAsGlif]
+    constructor
+    · intro h
+      obtain ⟨g, hg⟩ := mem_keys_exists h
+      exact Or.inl (hs.loaded gn g hg)
+    · rintro (h | h)
+      · exact (AL_mem_keys_iff_contains _ _).2 (hk gn h)
+      · simp [AL.contains] at h
+  disjoint := by intro gn _; simp [saveAsMLayer, AL.contains]
+  glyphs := by
+    intro gn g' st hm hst
+    simp only [saveAsMLayer, List.mem_map] at hm
+    obtain ⟨⟨k, g⟩, hg, he⟩ := hm
+    simp only [saveAsGlyph, Prod.mk.injEq] at he
+    obtain ⟨rfl, rfl⟩ := he
+    simp only at hst
+    injection hst with hst
+    subst hst
+    refine ⟨⟨g.value, tD⟩, ?_, rfl⟩
+    simp only [saveAsDLayer]
+    rw [get?_map_saveAsGlif, AL.get?_of_mem_nodup hs.nodupGlyphs hg]
+    rfl
+  sched := by intro gn st hg; simp [saveAsMLayer] at hg
+  gs := ⟨_, rfl, rfl, rfl, fun gn => by simp [saveAsDLayer, keys_map_saveAsGlif]⟩
+  loaded := by
+    intro gn g' hm
+    simp only [saveAsMLayer, List.mem_map] at hm
+    obtain ⟨⟨k, g⟩, hg, he⟩ := hm
+    simp only [saveAsGlyph, Prod.mk.injEq] at he
+    obtain ⟨rfl, _⟩ := he
+    exact hs.loaded _ g hg
+  nodupGlyphs := by
+    simp only [saveAsMLayer, keys_map_saveAsGlyph]
+    exact hs.nodupGlyphs
+
+/-! #### images and data written by a save-as -/
+
+theorem saveAsEntry_fst (tM : Time) (p : String × Entry) : (saveAsEntry tM p).1 = p.1 := by
+  unfold saveAsEntry; split <;> rfl
+
+theorem keys_map_saveAsEntry (tM : Time) (en : List (String × Entry)) :
+    AL.keys (en.map (saveAsEntry tM)) = AL.keys en := by
+  simp [AL.keys, List.map_map, Function.comp_def, saveAsEntry_fst]
+
+theorem get?_filterMap_saveAsFile (old : List (String × File)) (tD : Time) (en : List (String × Entry)) {n : String}
+    {e : Entry} (hn : (AL.keys en).Nodup) (hm : (n, e) ∈ en) :
+    AL.get? (en.filterMap (saveAsFile old tD)) n = (saveAsFile old tD (n, e)).map (·.2) := by
+  induction en with
+  | nil => simp at hm
+  | cons x r ih =>
+    obtain ⟨k, v⟩ := x
+    simp only [AL.keys, List.map_cons, List.nodup_cons] at hn
+    have hkey : ∀ q, saveAsFile old tD (k, v) = some q → q.1 = k := by
+      intro q hq
+      unfold saveAsFile at hq
+      cases hd : v.data with
+      | some b => simp [hd] at hq; rw [← hq]
+      | none =>
+        simp only [hd] at hq
+        cases ho : AL.get? old k with
+        | none => simp [ho] at hq
+        | some f => simp [ho] at hq; rw [← hq]
+    simp only [List.mem_cons, Prod.mk.injEq] at hm
+    rcases hm with ⟨h1, h2⟩ | hm
+    · subst h1; subst h2
+      cases hs : saveAsFile old tD (n, e) with
+      | none =>
+        simp only [List.filterMap_cons, hs, Option.map_none]
+        -- no later entry has this name
+        apply AL.get?_eq_none_of_not_mem
+        intro hc
+        obtain ⟨f, hf⟩ := mem_keys_exists hc
+        rw [List.mem_filterMap] at hf
+        obtain ⟨⟨k2, v2⟩, hm2, hq2⟩ := hf
+        have : k2 = n := by
+          have := hkey
+          unfold saveAsFile at hq2
+          cases hd : v2.data with
+          | some b => simp [hd] at hq2; exact hq2.1
+          | none =>
+            simp only [hd] at hq2
+            cases ho : AL.get? old k2 with
+            | none => simp [ho] at hq2
+            | some f2 => simp [ho] at hq2; exact hq2.1
+        subst this
+        exact hn.1 (List.mem_map.2 ⟨(k2, v2), hm2, rfl⟩)
+      | some q =>
+        have := hkey q hs
+        obtain ⟨k2, f2⟩ := q
+        simp only at this
+        subst this
+        simp [List.filterMap_cons, hs]
+    · have hne : k ≠ n := by
+        intro e2; subst e2
+        exact hn.1 (List.mem_map.2 ⟨(k, e), hm, rfl⟩)
+      have ih' := ih (by simpa [AL.keys] using hn.2) hm
+      cases hs : saveAsFile old tD (k, v) with
+      | none => simp [List.filterMap_cons, hs, ih']
+      | some q =>
+        have := hkey q hs
+        obtain ⟨k2, f2⟩ := q
+        simp only at this
+        subst this
+        simp [List.filterMap_cons, hs, hne, ih']
+
+theorem mem_filterMap_saveAsFile {old : List (String × File)} {tD : Time} {en : List (String × Entry)} {n : String}
+    (h : n ∈ AL.keys (en.filterMap (saveAsFile old tD))) : ∃ e, (n, e) ∈ en := by
+  obtain ⟨f, hf⟩ := mem_keys_exists h
+  rw [List.mem_filterMap] at hf
+  obtain ⟨⟨k, v⟩, hm, hq⟩ := hf
+  have : k = n := by
+    unfold saveAsFile at hq
+    cases hd : v.data with
+    | some b => simp [hd] at hq; exact hq.1
+    | none =>
+      simp only [hd] at hq
+      cases ho : AL.get? old k with
+      | none => simp [ho] at hq
+      | some f2 => simp [ho] at hq; exact hq.1
+  subst this
+  exact ⟨v, hm⟩
+
+/-- the image / data set a save-as leaves, against the directory it wrote -/
+theorem fsSynced_saveAs {old : List (String × File)} {fs : FileSet} (h : FSSynced old fs) (tD tM : Time) :
+    FSSynced (fs.entries.filterMap (saveAsFile old tD)) (saveAsFS tM fs) where
+  known := by
+    intro n hn
+    left
+    obtain ⟨e, he⟩ := mem_filterMap_saveAsFile hn
+    have hmem : (saveAsEntry tM (n, e)) ∈ fs.entries.map (saveAsEntry tM) := List.mem_map.2 ⟨(n, e), he, rfl⟩
+    have hk : (saveAsEntry tM (n, e)).1 = n := saveAsEntry_fst tM (n, e)
+    have hpair : saveAsEntry tM (n, e) = (n, (saveAsEntry tM (n, e)).2) := by
+      apply Prod.ext
+      · exact hk
+      · rfl
+    rw [hpair] at hmem
+    exact AL_contains_of_mem hmem
+  onDisk := by
+    intro n e' hm
+    simp only [saveAsFS, List.mem_map] at hm
+    obtain ⟨⟨k, e⟩, he, hq⟩ := hm
+    have hk : k = n := by have := saveAsEntry_fst tM (k, e); rw [hq] at this; exact this.symm
+    subst hk
+    have hget := get?_filterMap_saveAsFile old tD fs.entries h.nodupEntries he
+    unfold AL.contains
+    rw [hget]
+    unfold saveAsEntry at hq
+    unfold saveAsFile
+    cases hd : e.data with
+    | some b =>
+      simp only [hd, Prod.mk.injEq, true_and] at hq
+      subst hq
+      simp
+    | none =>
+      simp only [hd, Prod.mk.injEq, true_and] at hq
+      subst hq
+      have := h.onDisk k e he
+      simp only [AL.contains] at this
+      simp only [Option.map_map]
+      rw [this]
+      cases AL.get? old k <;> simp
+  digest := by
+    intro n e' f hm hf hd'
+    simp only [saveAsFS, List.mem_map] at hm
+    obtain ⟨⟨k, e⟩, he, hq⟩ := hm
+    have hk : k = n := by have := saveAsEntry_fst tM (k, e); rw [hq] at this; exact this.symm
+    subst hk
+    rw [get?_filterMap_saveAsFile old tD fs.entries h.nodupEntries he] at hf
+    unfold saveAsEntry at hq
+    unfold saveAsFile at hf
+    cases hd : e.data with
+    | some b =>
+      simp only [hd, Prod.mk.injEq, true_and] at hq
+      subst hq
+      simp only [hd, Option.map_some, Option.some.injEq] at hf
+      subst hf
+      rfl
+    | none =>
+      simp only [hd, Prod.mk.injEq, true_and] at hq
+      subst hq
+      simp [hd] at hd'
+  unloaded := by
+    intro n e' hm hd'
+    simp only [saveAsFS, List.mem_map] at hm
+    obtain ⟨⟨k, e⟩, he, hq⟩ := hm
+    unfold saveAsEntry at hq
+    cases hd : e.data with
+    | some b =>
+      simp only [hd, Prod.mk.injEq] at hq
+      obtain ⟨_, hq⟩ := hq
+      subst hq
+      rfl
+    | none =>
+      simp only [hd, Prod.mk.injEq] at hq
+      obtain ⟨_, hq⟩ := hq
+      subst hq
+      exact h.unloaded k e he hd
+  schedOnDisk := by intro n e hg; simp [saveAsFS] at hg
+  schedDigest := by intro n e f hg; simp [saveAsFS] at hg
+  schedUnloaded := by intro n e hg; simp [saveAsFS] at hg
+  nodupSched := by simp [saveAsFS, AL.keys]
+  nodupEntries := by
+    simp only [saveAsFS, keys_map_saveAsEntry]
+    exact h.nodupEntries
+
+theorem retimeFiles_retimeFiles {κ : Type} (t u : Time) (files : List (κ × File)) :
+    retimeFiles u (retimeFiles t files) = retimeFiles u files := by
+  simp [retimeFiles, List.map_map, Function.comp_def]
+
+theorem stripTimes_retime (t : Time) (d : Disk) : stripTimes (retime t d) = stripTimes d := by
+  simp [stripTimes, retime, retimeFiles_retimeFiles, List.map_map, Function.comp_def]
+
+theorem synced_loadAllParts {s : State} (h : Synced s) : Synced (allParts.foldl loadPart s) := by
+  simp only [allParts, List.foldl]
+  exact synced_loadPart (synced_loadPart (synced_loadPart (synced_loadPart (synced_loadPart h _) _) _) _) _
+
+/-- SAVE-AS.  A save-as from a font in step leaves a font in step with the UFO it wrote. -/
+theorem synced_saveAs {s s' : State} (h : Synced s) {tD tS : Time} (hr : saveAs s tD tS = .ok s') : Synced s' := by
+  unfold saveAs at hr
+  simp only at hr
+  have h1 := synced_loadAllParts h
+  cases hl : loadLayers (allParts.foldl loadPart s) (allParts.foldl loadPart s).font.order with
+  | error e => simp [hl] at hr
+  | ok s2 =>
+    simp only [hl] at hr
+    injection hr with hr
+    subst hr
+    obtain ⟨h2, _, _, hkl⟩ := loadLayers_spec _ h1 (fun _ hx => hx) hl
+    have hkl2 : ∀ ln ∈ s2.font.order, KeysLoaded s2 ln := by
+      intro ln hln
+      apply hkl
+      have : s2.font.order = (allParts.foldl loadPart s).font.order := by
+        obtain ⟨_, ho, _, _⟩ := loadLayers_spec _ h1 (fun _ hx => hx) hl
+        exact ho
+      rw [← this]; exact hln
+    exact {
+      parts := by
+        intro p mp hg
+        have hg' : AL.get? (s2.font.parts.map fun q =>
+            (q.1, ({ q.2 with dirty := false, stamp := stampW s.zip tS (saveAsDisk s2 tD) q.1 } : MPart))) p = some mp := hg
+        rw [get?_map_key_val (fun k (v : MPart) =>
+            ({ v with dirty := false, stamp := stampW s.zip tS (saveAsDisk s2 tD) k } : MPart))] at hg'
+        cases hp : AL.get? s2.font.parts p with
+        | none => simp [hp] at hg'
+        | some mp0 =>
+          simp [hp] at hg'
+          subst hg'
+          exact stampW_data _ _ _ _
+      order := by
+        show s2.font.order = AL.keys (s2.font.order.filterMap (saveAsLayerEntry s2 tD))
+        rw [keys_filterMap_layerEntry]
+        intro ln hln
+        obtain ⟨l, hl', _⟩ := hkl2 ln hln
+        simp [hl']
+      default := rfl
+      layers := by
+        intro ln hln
+        have hln' : ln ∈ s2.font.order := hln
+        obtain ⟨l, hl', hk⟩ := hkl2 ln hln'
+        obtain ⟨dl, _, hs⟩ := h2.layerOf hln' hl'
+        refine ⟨saveAsMLayer (if s.zip then tS else tD) ln l, saveAsDLayer tD l, ?_, ?_, ?_⟩
+        · show AL.get? (s2.font.layers.map fun q => (q.1, saveAsMLayer (if s.zip then tS else tD) q.1 q.2)) ln = _
+          rw [get?_map_key_val (fun k (v : MLayer) => saveAsMLayer (if s.zip then tS else tD) k v)]
+          unfold getLayer at hl'
+          rw [hl']
+          rfl
+        · exact get?_filterMap_layerEntry s2 tD s2.font.order hln' hl'
+        · exact layerSynced_saveAs hs hk _ _
+      images := fsSynced_saveAs h2.images tD _
+      data := fsSynced_saveAs h2.data tD _
+      reader := by
+        intro _
+        show stripTimes (if s.zip then retime tS (saveAsDisk s2 tD) else saveAsDisk s2 tD) = stripTimes (saveAsDisk s2 tD)
+        cases s.zip
+        · rfl
+        · exact stripTimes_retime _ _
+      nodupOrder := h2.nodupOrder }
+
+theorem step_saveas (s : State) (tD tS : Time) : (step s (.saveas tD tS)).1 =
+    (match saveAs s tD tS with
+      | .ok s1 => s1
+      | .error _ => s) := by
+  show (match saveAs s tD tS with
+      | .ok s1 => (s1, Res.disk)
+      | .error e => (s, Res.err e)).1 = _
+  cases saveAs s tD tS with
+  | error e => rfl
+  | ok r => rfl
+
+/-- after a save-as nothing is scheduled for deletion any more -/
+theorem saveAs_sched {s s' : State} {tD tS : Time} (hr : saveAs s tD tS = .ok s') :
+    (∀ ln l, getLayer s' ln = some l → l.sched = []) ∧ s'.font.images.sched = [] ∧ s'.font.data.sched = [] := by
+  unfold saveAs at hr
+  simp only at hr
+  cases hl : loadLayers (allParts.foldl loadPart s) (allParts.foldl loadPart s).font.order with
+  | error e => simp [hl] at hr
+  | ok s2 =>
+    simp only [hl] at hr
+    injection hr with hr
+    subst hr
+    refine ⟨?_, rfl, rfl⟩
+    intro ln l hg
+    have hg' : AL.get? (s2.font.layers.map fun q => (q.1, saveAsMLayer (if s.zip then tS else tD) q.1 q.2)) ln = some l := hg
+    rw [get?_map_key_val (fun k (v : MLayer) => saveAsMLayer (if s.zip then tS else tD) k v)] at hg'
+    cases hp : AL.get? s2.font.layers ln with
+    | none => simp [hp] at hg'
+    | some l0 =>
+      simp [hp] at hg'
+      subst hg'
+      rfl
 
 /-! ### every quiet operation keeps the font in step -/
 
@@ -1439,6 +2060,11 @@ theorem synced_step_aux {s : State} (h : Synced s) (op : Op) (hq : Quiet op) : S
   | lorder _ => exact absurd hq (by simp [Quiet])
   | ldefault _ => exact absurd hq (by simp [Quiet])
   | save _ _ => exact absurd hq (by simp [Quiet])
+  | saveas tD tS =>
+    rw [step_saveas]
+    cases hr : saveAs s tD tS with
+    | error e => exact h
+    | ok s1 => exact synced_saveAs h hr
   | xlinfo _ _ => exact absurd hq (by simp [Quiet])
   | xladd _ _ _ => exact absurd hq (by simp [Quiet])
   | xldel _ => exact absurd hq (by simp [Quiet])
